@@ -357,6 +357,7 @@ func init() {
 		},
 		// ---- the clock: an arbitrary fixed instant (deadlines and timestamps have
 		// no effect on the models of the transport) ----
+		"time.Sleep": func(e *Exec, c *frame, fn *ssa.Function, a []Value) Value { return nil },
 		"time.Now": func(e *Exec, c *frame, fn *ssa.Function, a []Value) Value {
 			t := zero(e.M.namedType("time", "Time")).(Struct)
 			t[0] = sym.Const(64, 1<<63|1<<30) // hasMonotonic, some seconds
